@@ -264,6 +264,32 @@ const struct attr_ops file_fd_ops = {
 	.post_set = file_fd_post_hook,
 };
 
+/**  Release the file format of a dump file object.
+ * @param ctx   Dump file object.
+ *
+ * Undo everything that a format probe (successful or not) has set up.
+ * Attribute overrides live inside the format's private data, so they
+ * must be removed before that data is freed.
+ */
+static void
+close_format(kdump_ctx_t *ctx)
+{
+	if (ctx->shared->ops->attr_cleanup)
+		ctx->shared->ops->attr_cleanup(ctx->dict);
+	if (ctx->shared->ops->cleanup)
+		ctx->shared->ops->cleanup(ctx->shared);
+	ctx->shared->ops = NULL;
+	if (ctx->shared->cache) {
+		/* cache.hits and cache.misses live in the cache */
+		attr_embed_value(gattr(ctx, GKI_cache_hits));
+		attr_embed_value(gattr(ctx, GKI_cache_misses));
+		cache_free(ctx->shared->cache);
+		ctx->shared->cache = NULL;
+	}
+	clear_volatile_attrs(ctx);
+	set_addrspace_caps(ctx->xlat, 0);
+}
+
 /**  Open the dump.
  * @param ctx   Dump file object.
  * @returns     Error status.
@@ -315,6 +341,12 @@ open_dump(kdump_ctx_t *ctx)
 				 "Cannot allocate %s", "flattened dump maps");
 	}
 
+	/* A dump that is still open is closed first; its private data
+	 * must not be mistaken for that of the formats probed below.
+	 */
+	if (ctx->shared->ops)
+		close_format(ctx);
+
 	flatmap_free(ctx->shared->flatmap);
 	ctx->shared->flatmap = flatmap;
 	if (ctx->shared->fcache) {
@@ -361,23 +393,8 @@ open_dump(kdump_ctx_t *ctx)
 
 		/* Undo everything the failed probe may have left behind,
 		 * no matter whether the format was recognized or not.
-		 * Attribute overrides live inside the format's private
-		 * data, so they must be removed before that data is freed.
 		 */
-		if (ctx->shared->ops->attr_cleanup)
-			ctx->shared->ops->attr_cleanup(ctx->dict);
-		if (ctx->shared->ops->cleanup)
-			ctx->shared->ops->cleanup(ctx->shared);
-		ctx->shared->ops = NULL;
-		if (ctx->shared->cache) {
-			/* cache.hits and cache.misses live in the cache */
-			attr_embed_value(gattr(ctx, GKI_cache_hits));
-			attr_embed_value(gattr(ctx, GKI_cache_misses));
-			cache_free(ctx->shared->cache);
-			ctx->shared->cache = NULL;
-		}
-		clear_volatile_attrs(ctx);
-		set_addrspace_caps(ctx->xlat, 0);
+		close_format(ctx);
 		if (ret != KDUMP_NOPROBE)
 			return ret;
 		clear_error(ctx);
